@@ -15,7 +15,7 @@ from vmc import space
 
 date = datetime.date
 
-FAMILIES = ("nested", "inherit", "generic", "mutual", "formats", "helpers", "disc")
+FAMILIES = ("nested", "inherit", "generic", "mutual", "formats", "helpers", "disc", "deep")
 LATE = "late"      # parent defined first; the subclass is defined by an operation of the history (C13)
 
 
@@ -115,6 +115,16 @@ def source(family, mode, support, config_dialect=None):
         c = "@dataclass\nclass C(C0):\n    x: int = 5\n    dd: Optional[date] = None\n"
         chunks = [c0, c]
         roles = ["C0", "C"]
+    elif family == "deep":
+        # Outer -> List[Box[int]] -> Optional['Note']; Note is defined LATER by an operation of the history: until then calls
+        # whose values never reach Note must work whatever the compile timing of Outer
+        box = "TB = TypeVar('TB')\n@dataclass\nclass Box(Generic[TB]):\n    v: TB\n    note: Optional['Note'] = None\n"
+        plain = "@dataclass\nclass PBox:\n    v: int = 0\n    note: Optional['Note'] = None\n"
+        outer = (f"@dataclass\nclass PO(DataClassDictMixin):\n    label: str\n    boxes: List[Box[int]] = field(default_factory=list)\n"
+                 f"    pb: Optional[PBox] = None\n{cfg}")
+        note = "@dataclass\nclass Note:\n    d: date\n"
+        chunks = [box, plain, outer, note]
+        roles = ["PO"]
     elif family == "disc":
         # class-level discriminator: the tag registry of Base is filled on first use, per format, and shared by every caller
         dcfg = _cfg(mode, support, "discriminator = Discriminator(field='kind', include_subtypes=True)")
@@ -193,6 +203,8 @@ class Family:
             return ns["MA"](b=ns["MB"](a=ns["MA"](None, 2)), n=3)
         if role == "MB":
             return ns["MB"](a=ns["MA"](ns["MB"]()), d=date(2019, 9, 9))
+        if role == "PO":
+            return ns["PO"]("s")
         if role == "Base":
             return ns["VA"]("ta", d=date(2020, 1, 2))
         if role == "BaseB":
